@@ -47,6 +47,21 @@ def claims_table():
     return "\n".join(rows)
 
 
+def claim_texts():
+    props = {}
+    for line in open(os.path.join(VERIF, "properties.jsonl")):
+        if line.strip():
+            q = json.loads(line)
+            props[q["id"]] = q.get("title", "")
+    out = []
+    for f in sorted(glob.glob(os.path.join(VERIF, "lib", "claims", "*.json"))):
+        pid = os.path.basename(f)[:-5]
+        c = json.load(open(f))
+        out.append("**%s - %s.**  *Claimed:* %s  *Limits and trusted parts:* %s\n" % (
+            pid, props.get(pid, ""), c["text"].strip(), c["note"].strip()))
+    return "\n".join(out)
+
+
 def seeded_table():
     rows = ["| change | property | what it does | needs | confirmed (demo fails with / passes without; tests) | our check |",
             "|---|---|---|---|---|---|"]
@@ -79,6 +94,7 @@ def fix_commits():
 
 
 TABLES = {"findings": findings_table, "claims": claims_table, "seeded": seeded_table,
+          "claimtexts": claim_texts,
           "fixcommits": fix_commits}
 
 
